@@ -121,6 +121,8 @@ def to_val(x):
         return Val.VInt(x.z)
     if isinstance(x, SF64):
         return Val.VFloat(x.z)
+    if isinstance(x, SReal):
+        return Val.VFloat(REAL_F64(x.z))
     if type(x) is bytes or isinstance(x, SBytes):
         return Val.VBytes(zseq(x))
     if type(x) is str or isinstance(x, SStr):
@@ -281,7 +283,10 @@ def binop(op, a, b):
         if is_strlike(a):
             # text formatting: an uninterpreted function of the format and the operands (pure for plain operands; a heap
             # operand's __str__ would run - not modelled, the result is only used as a name / message)
-            return SStr(TEXT_FMT(to_val(a), to_val(b))), []
+            r = TEXT_FMT(to_val(a), to_val(b))
+            if isinstance(a, str) and "%" in a and a.index("%") > 0:
+                r = z3.Concat(seq_lit(a[:a.index("%")]), r)       # the result starts with the format's literal prefix
+            return SStr(r), []
     if isinstance(op, ast.BitOr):
         if isinstance(a, (SBool, bool)) and isinstance(b, (SBool, bool)):
             return b2v(z3.Or(zbool(a), zbool(b))), []
@@ -516,6 +521,7 @@ def seq_in_consts(s, consts):
 
 
 TEXT_FMT = z3.Function("text_fmt", Val, Val, Bytes)
+REAL_F64 = z3.Function("real_f64", z3.RealSort(), F64)       # a time value stored as a float object (floats-as-reals assumption)
 
 
 def const_table_lookup(table, key):
